@@ -57,8 +57,9 @@ pub mod store {
 pub fn registry() -> Vec<(&'static str, fn())> {
     let mut v = Vec::new();
     v.extend(store::harness::k_keys::registry());
-    v.extend(store::harness::dbg::registry());
     v.extend(store::harness::o_ops::registry());
     v.extend(store::harness::k_ttl::registry());
+    v.extend(store::harness::p_read::registry());
+    v.extend(store::harness::p_writers::registry());
     v
 }
